@@ -753,6 +753,31 @@ Definition action_more (norm : bool) (prod : string) (args : list pyval) : res p
     else if String.eqb lhs "index_table_name" then act_index_table_name args
     else if String.eqb lhs "index_pid" then act_index_pid args
     else if String.eqb prod "expr -> index_table_name LP index_pid RP" then act_expr_index args
+    (* clauses after the column list (C11): every one of them sets one key of the table entity and looks at nothing else *)
+    else if String.eqb prod "tablespace -> TABLESPACE id" then
+      match args with
+      | [PStr "TABLESPACE"; name] => Ok (PDict [("tablespace_name", name); ("properties", PNone); ("type", PNone); ("temporary", PBool false)])
+      | _ => Unsupported "tablespace form" end
+    else if String.eqb prod "expr -> expr tablespace" then
+      match args with [PDict t; v] => Ok (PDict (dict_set t "tablespace" v)) | _ => Unsupported "expr tablespace form" end
+    else if String.eqb prod "expr -> expr STORED AS id" then
+      match args with [PDict t; _; _; v] => Ok (PDict (dict_set t "stored_as" v)) | _ => Unsupported "stored as form" end
+    else if String.eqb prod "expr -> expr LOCATION STRING" then
+      match args with [PDict t; _; v] => Ok (PDict (dict_set t "location" v)) | _ => Unsupported "location form" end
+    else if String.eqb prod "expr -> expr ENGINE EQ id" then
+      match args with [PDict t; _; _; v] => Ok (PDict (dict_set t "engine" v)) | _ => Unsupported "engine form" end
+    else if String.eqb prod "option_comment -> COMMENT EQ STRING" then
+      match args with [_; _; v] => Ok (PDict [("comment", v)]) | _ => Unsupported "option_comment form" end
+    else if String.eqb prod "expr -> expr option_comment" then
+      match args with
+      | [PDict t; PDict c] => Ok (PDict (match c with [] => t | _ => dict_update t c end))
+      | _ => Unsupported "expr option_comment form" end
+    else if String.eqb prod "using -> USING id" then
+      match args with [_; v] => Ok (PDict [("using", v)]) | _ => Unsupported "using form" end
+    else if String.eqb prod "expr -> expr using" then
+      match args with [PDict t; PDict u] => Ok (PDict (dict_update t u)) | _ => Unsupported "expr using form" end
+    else if String.eqb prod "expr -> expr IN id" then
+      match args with [PDict t; _; v] => Ok (PDict (dict_set t "tablespace" v)) | _ => Unsupported "expr IN form" end
     else if String.eqb prod "pkey_statement -> PRIMARY KEY" then Ok (PDict [("primary_key", PNone)])
     else if String.eqb prod "pkey -> pkey_statement LP pid RP" then act_pkey args
     else if String.eqb prod "uniq -> UNIQUE LP pid RP" then act_uniq args
